@@ -318,8 +318,8 @@ func checkProperty(p *Program, prop, tier string, timeoutS, workers int, start t
 	}
 	if prop == "C20" {
 		results = append(results, p.structObligations())
-	} else if prop == "C05" || prop == "C17" {
-		// the routing obligation (message switch, query switch) also carries C05 and C17
+	} else if prop == "C05" || prop == "C17" || prop == "C11" || prop == "C19" {
+		// the routing and module-wiring obligations also carry C05, C17, C11, C19
 		sr := p.structObligations()
 		var keep []*Obl
 		for _, o := range sr.Obls {
